@@ -16,7 +16,8 @@ LEVEL = "exploration"
 CASE_TIMEOUT = 30  # seconds per case; a timed-out case is counted as skipped (symbolic blow-up on long feedback runs), never as a verdict
 RULE = (
     "enumerated: all 2^w bit patterns of every shipped Qint/Qfixed/Qchar type (non-trivial = pattern not all-zero; "
-    "distinct by (type, pattern)); generated: Hypothesis builds nested Tuple/Qlist/Qmatrix types (depth<=3, <=24 bits) "
+    "distinct by (type, pattern)), and every ordered pair (type - or implementation base class QintImp/QfixedImp - used first, shipped type then judged) "
+    "run in a forked child so that the verdict depends on the pair only; generated: Hypothesis builds nested Tuple/Qlist/Qmatrix types (depth<=3, <=24 bits) "
     "with element values, non-trivial = type has >=2 leaves of different widths; distinct by canonical JSON of (type, values)"
 )
 ASSUMPTIONS = [
@@ -337,9 +338,89 @@ def _enum_type(args):
     return {"n": n, "keys": keys, "viol": viol, "type": name}
 
 
+# ------------------------------------------------------- order of first use
+
+BASE_FIRST = ["QintImp", "QfixedImp"]  # implementation base classes in qlasskit.types (usable types with a BIT_SIZE of their own)
+
+
+def all_descs():
+    return [["Qint", w] for w in QINT_W] + [["Qfixed", i, f] for (i, f) in QFIXED] + [["Qchar"]]
+
+
+def _order_child(case):
+    """runs in a forked child: use the first type, then judge (a slice of) the second one"""
+    import qlasskit.types as qt
+
+    first, then = case["order"]
+    if isinstance(first, str):
+        T1 = getattr(qt, first)
+        w1 = T1.BIT_SIZE
+        for v in (0, 1, (1 << w1) - 1, (1 << w1) // 3):
+            try:
+                o = T1.from_bool([bool((v >> k) & 1) for k in range(w1)])
+                o.to_bool()
+                T1.const(o if not isinstance(o, float) else float(o))
+            except Exception:
+                pass  # the base class's own results are not judged, only its influence on the shipped types
+    else:
+        w1 = leaf_width(first)
+        r1 = _enum_type((first, 0, min(1 << w1, 8)))
+        if r1["viol"]:
+            return {"viol": r1["viol"], "n": r1["n"]}
+    w2 = leaf_width(then)
+    total = 1 << w2
+    if total <= 256:
+        r2 = _enum_type((then, 0, total))
+        return {"viol": r2["viol"], "n": r2["n"]}
+    n = 0
+    for lo in (0, total // 3, total - 96):
+        r2 = _enum_type((then, lo, lo + 96))
+        n += r2["n"]
+        if r2["viol"]:
+            return {"viol": r2["viol"], "n": n}
+    return {"viol": [], "n": n}
+
+
+def judge_order(case):
+    from vlib import forkrun
+
+    feats = ["first-use-order"]
+    r = forkrun.run_in_fork(_order_child, case, timeout=50)
+    if r["viol"]:
+        k, c, d = r["viol"][0]
+        return {"status": "violation", "kind": "after-other-type:" + k, "detail": dict(d, first_used=case["order"][0], pattern=c.get("pattern")), "features": feats}
+    return {"status": "ok", "nontrivial": True, "features": feats, "rows": r["n"]}
+
+
+def _run_order(case):
+    import traceback
+
+    try:
+        return {"case": case, "res": judge_order(case)}
+    except Exception:
+        return {"case": case, "error": traceback.format_exc()}
+
+
 def exhaustive(tier, pool):
+    # (a) every ordered pair (type used first, type judged): each pair in a forked child of a worker that has not
+    #     touched the codecs yet, so that the verdict depends on the pair only
+    descs0 = all_descs()
+    ocases = [{"order": [a, b]} for a in BASE_FIRST + descs0 for b in descs0 if a != b]
+    ores = pool.map(_run_order, ocases, chunksize=8)
+    oviol = []
+    okeys = []
+    on = 0
+    for r in ores:
+        if "error" in r:
+            raise RuntimeError("order case crashed: " + r["error"] + "\n" + str(r["case"]))
+        on += r["res"].get("rows", 0)
+        if r["res"]["status"] == "violation":
+            if r["res"]["kind"] not in [x[0] for x in oviol]:
+                oviol.append((r["res"]["kind"], r["case"], r["res"]["detail"]))
+        else:
+            okeys.append(case_hash(["order", r["case"]["order"]]))
     tasks = []
-    descs = [["Qint", w] for w in QINT_W] + [["Qfixed", i, f] for (i, f) in QFIXED] + [["Qchar"]]
+    descs = all_descs()
     for d in descs:
         w = leaf_width(d)
         total = 1 << w
@@ -360,13 +441,15 @@ def exhaustive(tier, pool):
             if k not in [x[0] for x in viol]:
                 viol.append((k, c, d))
     return {
-        "evaluations": n,
-        "keys": keys,
-        "samples": [{"type": ["Qfixed", 4, 4], "pattern": 17}, {"type": ["Qint", 16], "pattern": 40000}],
-        "violations": viol,
+        "evaluations": n + len(ocases),
+        "keys": keys + okeys,
+        "samples": [{"type": ["Qfixed", 4, 4], "pattern": 17}, {"type": ["Qint", 16], "pattern": 40000}, {"order": ["QfixedImp", ["Qfixed", 2, 6]]}],
+        "violations": oviol + viol,
         "exhaustive": True,
         "patterns_per_type": per_type,
-        "what": "all bit patterns of all shipped base types: from_bool/to_bool/from_bin/to_bin/const/runtime encoding/to_amplitudes(w<=12)/const_to_qtype",
+        "features": {"first-use-order-pairs": len(ocases), "first-use-order-patterns": on},
+        "what": "all bit patterns of all shipped base types: from_bool/to_bool/from_bin/to_bin/const/runtime encoding/to_amplitudes(w<=12)/const_to_qtype; "
+        "plus every ordered pair (type or implementation base class used first, shipped type judged on all / 288 patterns) in a forked child",
     }
 
 
@@ -384,4 +467,6 @@ _judge_nested = judge
 def judge(case):  # noqa: F811  (dispatch on case shape so that enumerated witnesses replay too)
     if "pattern" in case:
         return judge_enum(case)
+    if "order" in case:
+        return judge_order(case)
     return _judge_nested(case)
